@@ -270,6 +270,107 @@ def unrecognised_is_fatal(prog, rn):
     return True, "", stats
 
 
+# ------------------------------------------------------------------------------------------------
+# R-7.4: a list must not shrink / be reordered while a `for` iterates it
+SHRINKERS = {"remove", "pop", "clear", "insert", "sort", "reverse"}
+DICT_SHRINKERS = {"pop", "popitem", "clear"}
+VIEW_WRAPPERS = {"enumerate", "reversed", "iter", "zip"}           # iterate the argument itself, not a copy
+DICT_VIEWS = {"items", "keys", "values"}
+
+
+def _iterated_containers(fn, it):
+    """[(canonical text, is_dict_view)] of the containers a `for ... in <it>` walks *in place* (copies yield nothing)."""
+    from ..dataflow import expand_aliases, is_path
+    if isinstance(it, ast.Call) and isinstance(it.func, ast.Name) and it.func.id in VIEW_WRAPPERS and not it.keywords:
+        out = []
+        for a in it.args:
+            out += _iterated_containers(fn, a)
+        return out
+    if isinstance(it, ast.Call) and isinstance(it.func, ast.Attribute) and it.func.attr in DICT_VIEWS and not it.args:
+        base = expand_aliases(fn, it.func.value)
+        return [(text(base, 400), True)] if is_path(base) else []
+    e = expand_aliases(fn, it)
+    if is_path(e) and not (isinstance(e, ast.Subscript) and isinstance(e.slice, ast.Slice)):
+        return [(text(e, 400), False)]
+    return []                       # L[:], L[::-1], list(L), sorted(L), tuple(L), L.copy(), a fresh call result ...
+
+
+def _container_mutations(fn, loop, cont, is_dict):
+    """Statements / calls in the body of *loop* that shrink or reorder the container spelled *cont*."""
+    from ..dataflow import expand_aliases
+    out = []
+
+    def same(e):
+        return text(expand_aliases(fn, e), 400) == cont
+
+    stack = list(loop.body)
+    while stack:
+        n = stack.pop()
+        if isinstance(n, (ast.FunctionDef, ast.AsyncFunctionDef, ast.ClassDef, ast.Lambda)):
+            continue
+        stack.extend(ast.iter_child_nodes(n))
+        if isinstance(n, ast.Call) and isinstance(n.func, ast.Attribute) \
+                and n.func.attr in (DICT_SHRINKERS if is_dict else SHRINKERS) and same(n.func.value):
+            out.append((n, f".{n.func.attr}()"))
+        elif isinstance(n, ast.Delete):
+            for t in n.targets:
+                if isinstance(t, ast.Subscript) and same(t.value):
+                    out.append((n, "del ...[...]"))
+        elif isinstance(n, (ast.Assign, ast.AugAssign)) and not is_dict:
+            tg = n.targets if isinstance(n, ast.Assign) else [n.target]
+            for t in tg:
+                for sub in ([t] + (list(t.elts) if isinstance(t, (ast.Tuple, ast.List)) else [])):
+                    if isinstance(sub, ast.Subscript) and isinstance(sub.slice, ast.Slice) and same(sub.value):
+                        out.append((n, "slice assignment"))
+            if isinstance(n, ast.AugAssign) and not isinstance(n.op, ast.Add) and same(n.target):
+                out.append((n, "in-place operator"))
+    return out
+
+
+def rule_no_shrink_while_iterating(run, prog):
+    from ..dataflow import cfg_node_of
+    run.rule("R-7.4", "whole program, after inlining: no `for x in L` (L a name / attribute path walked in place -- also "
+             "through enumerate / reversed / zip / dict views; not a copy such as L[:], list(L), sorted(L)) has a body that "
+             "shrinks or reorders L (remove / pop / clear / insert / sort / reverse / del L[..] / slice assignment) on a path "
+             "that comes back to the loop header: the iteration would skip or repeat elements (a file never analysed but "
+             "reported OK, a statement never checked).  Appending is the work-list idiom and is allowed; so is a mutation "
+             "after which every path leaves the loop", floor=17)
+    n_loops = 0
+    n_all = 0
+    for fn in prog.fns:
+        loops = [n for n in walk_fn(fn.node) if isinstance(n, (ast.For, ast.AsyncFor))]
+        n_all += len(loops)
+        if not loops:
+            continue
+        g = cfg_of(fn)
+        for lp in sorted(loops, key=lambda n: (n.lineno, n.col_offset)):
+            conts = _iterated_containers(fn, lp.iter)
+            if not conts:
+                continue
+            n_loops += 1
+            head = g.nid(lp)
+            bad = []
+            # statements that end the process: nothing after them comes back to the loop
+            inside = {id(x) for st_ in lp.body for x in ast.walk(st_)}
+            body_nodes = {n.id for n in g.nodes if n.ast is not None and id(n.ast) in inside}
+            stops = {n.id for n in g.nodes if n.kind == "stmt" and isinstance(n.ast, ast.Expr) and isinstance(n.ast.value, ast.Call)
+                     and text(n.ast.value.func) in ("sys.exit", "exit", "quit", "os._exit")}
+            for cont, is_dict in conts:
+                for node, how in _container_mutations(fn, lp, cont, is_dict):
+                    at = cfg_node_of(g, node)
+                    if at is None or head is None or at == head or g.can_reach(
+                            at, head, avoid=stops, follow_exc=False, edge_filter=lambda a_, b_, lab: b_ == head or b_ in body_nodes):
+                        bad.append((node, how, cont))
+            run.ob("R-7.4", f"{fn.key}::for[{text(lp.iter, 60)}]", not bad,
+                   "the loop iterates `" + (bad[0][2] if bad else "") + "` in place and its body changes it ("
+                   + ", ".join(f"{how} at line {nd.lineno}: `{text(nd, 50)}`" for nd, how, _ in bad[:3])
+                   + ") before the next iteration: the element that slides into the freed position is skipped (or elements "
+                     "are visited twice)", bad[0][0] if bad else lp, mutations=len(bad))
+    run.note(f"R-7.4: {n_all} for-loops examined, {n_loops} of them walk a named container in place")
+    run.require(n_all >= 30 and n_loops >= 17, f"only {n_all} for-loops / {n_loops} in-place ones found in the whole program "
+                                               f"(floors 30 / 17)")
+
+
 def check(run, prog):
     cg = callgraph(prog)
     # ---- R-7.1 ownership -----------------------------------------------------------------
@@ -353,3 +454,5 @@ def check(run, prog):
     ok = len(calls) == 1 and caught_at(prog, calls[0].node, "CParsingError", main.node)
     run.ob("R-7.3", f"{main.key}::registry.run-in-try", ok, "registry.run is not called under main's fatal-error handler",
            calls[0].node if calls else main.node)
+
+    rule_no_shrink_while_iterating(run, prog)
